@@ -83,7 +83,11 @@ func BuildComments(path string, fileFilters func(path string) bool) []*astitodo.
 		displayName := filepath.Base(file)
 		fmt.Println("parse java call: " + displayName)
 
-		is, _ := antlr.NewFileStream(file)
+		is, err := antlr.NewFileStream(file)
+		if err != nil {
+			// a file that cannot be read (a dangling link, a link to a directory) has no comments
+			continue
+		}
 		lexer := NewCommentLexer(is)
 
 		for _, token := range lexer.GetAllTokens() {
